@@ -219,7 +219,7 @@ def gen_stop_scn(rnd, i):
 
 
 def generate(rnd, tier, kinds=("todo", "send", "destroy", "stop")):
-    n = {"quick": 300, "thorough": 4000, "search": 900}[tier]
+    n = {"quick": 600, "thorough": 4000, "search": 900}[tier]
     cases = []
     for i in range(n):
         kind = kinds[i % len(kinds)]
@@ -751,7 +751,7 @@ def run_check(pid, tier, seed, extra_monitor=None):
     return rep.finish()
 
 
-def extra_stage(kinds, monitors, flavour="plain", n_quick=120):
+def extra_stage(kinds, monitors, flavour="plain", n_quick=360):
     """a sched stage for checks that mainly run on the sim harness (C02, C06, C09, C10): returns a function for engine SPEC['extra']"""
     def run(rep, tier, seed):
         rnd = random.Random(seed * 31 + 7)
